@@ -349,6 +349,12 @@ def results_equivalent(r1, r2):
             return sem_equiv_rows(rows_from_canon(r1), rows_from_canon(r2))
         if isinstance(r1, list) and isinstance(r2, list) and not r1 and not r2:
             return True
+        if isinstance(r1, list) and isinstance(r2, list) and len(r1) == len(r2) and all(isinstance(v, str) for v in r1 + r2):
+            # flat lists of numbers (C18's corner coordinates): elementwise, tolerant
+            try:
+                return all(abs(Fraction(u) - Fraction(v)) <= Fraction(1, 10**6) * (1 + abs(Fraction(u))) for u, v in zip(r1, r2))
+            except Exception:
+                return r1 == r2
         if isinstance(r1, dict) and isinstance(r2, dict) and "cmp" in r1:
             # harness-defined comparable payload
             return r1["cmp"] == r2.get("cmp")
@@ -385,6 +391,10 @@ def sym_worker(args):
         setup = dict(getattr(mod, "SETUP", {}))
         setup.update(job.get("setup", {}))
         shims.install(stub_str=setup.get("stub_str", True), validate_lp=opts.get("validate_lp", False))
+        if setup.get("plots"):
+            from . import plots_shim
+
+            plots_shim.install()
         eng = E.Engine(mode="sym", timeout_ms=opts.get("query_timeout_ms", 20000), max_paths=opts.get("max_paths", 5000))
         eng.format_hook = shims.token_format
         deadline = t0 + opts.get("job_budget_s", 120)
